@@ -1323,7 +1323,7 @@ Definition step_of_writer (s : Write.step) : list step :=
   | Write.Loop Write.SSurfaces _ => [StSurfaces]
   | Write.Loop Write.SData _ => [StData]
   | Write.Loop _ _ => []                 (* message and title: before the cell block *)
-  | Write.Children => [StChildren]
+  | Write.Children _ => [StChildren]
   | Write.Blank => [StTerminate]
   | _ => []
   end.
